@@ -291,6 +291,11 @@ class CaseInsensitiveDefaultDict(defaultdict):
     """
     Variant of :any:`collections.defaultdict` that ignores the casing of string keys.
     """
+    def __init__(self, *args, **kwargs):
+        # The built-in constructor, update, setdefault and | do not call __setitem__
+        super().__init__(*args[:1])
+        self.update(*args[1:], **kwargs)
+
     def __setitem__(self, key, value):
         key = key.lower() if isinstance(key, str) else key
         super().__setitem__(key, value)
@@ -299,13 +304,40 @@ class CaseInsensitiveDefaultDict(defaultdict):
         key = key.lower() if isinstance(key, str) else key
         return super().__getitem__(key)
 
+    def __delitem__(self, key):
+        key = key.lower() if isinstance(key, str) else key
+        super().__delitem__(key)
+
     def get(self, key, default=None):
         key = key.lower() if isinstance(key, str) else key
         return super().get(key, default)
 
+    def pop(self, key, *args):
+        key = key.lower() if isinstance(key, str) else key
+        return super().pop(key, *args)
+
+    def setdefault(self, key, default=None):
+        key = key.lower() if isinstance(key, str) else key
+        return super().setdefault(key, default)
+
+    def update(self, *args, **kwargs):
+        for key, value in dict(*args, **kwargs).items():
+            self[key] = value
+
     def __contains__(self, key):
         key = key.lower() if isinstance(key, str) else key
         return super().__contains__(key)
+
+    def __or__(self, other):
+        if not isinstance(other, dict):
+            return NotImplemented
+        new = self.copy()
+        new.update(other)
+        return new
+
+    def __ior__(self, other):
+        self.update(other)
+        return self
 
 
 def strip_inline_comments(source, comment_char='!', str_delim='"\''):
